@@ -19,6 +19,10 @@ REPO = "/repo"
 
 # property -> list of (name, file relative to /repo, old, new)
 MUTANTS = {
+    "C20": [
+        ("gouy-chapman-constant", "src/phreeqcpp/model.cpp", "\t\t\t\tresidual[i] = sinh_constant * sqrt(mu_x) * sinh(x[i]->master[0]->s->la * LOG_10) -", "\t\t\t\tresidual[i] = 1.000001 * sinh_constant * sqrt(mu_x) * sinh(x[i]->master[0]->s->la * LOG_10) -"),
+        ("ccm-capacitance", "src/phreeqcpp/model.cpp", "\t\t\t\t\tcharge_ptr->Get_capacitance0() * x[i]->master[0]->s->la * 2 * R_KJ_DEG_MOL *", "\t\t\t\t\t1.00001 * charge_ptr->Get_capacitance0() * x[i]->master[0]->s->la * 2 * R_KJ_DEG_MOL *"),
+    ],
     "C19": [
         ("pr-b-constant", "src/phreeqcpp/prep.cpp", "phase_ptr->pr_b = 0.077796 * R * T_c / P_c;", "phase_ptr->pr_b = 0.078796 * R * T_c / P_c;"),
         ("kappa-term*", "src/phreeqcpp/prep.cpp", "kk = 0.37464 + oo * (1.54226 - 0.26992 * oo);", "kk = 0.37464 + oo * (1.54226 - 0.36992 * oo);"),
